@@ -418,8 +418,17 @@ VRepeat(r) ==
             IN  IF r.results[1] # <<"ok", [k \in 1..Len(nl) |-> nl[k].loc]>> THEN Rej("nodelist differs", <<>>) ELSE Acc
         ELSE Acc
 
+\* an iterator abandoned after its first item: r.locs is <<>> or the first node of the full result
+VFindFirst(r) ==
+    LET reg == RegOf(r)
+        cv  == CompileVerdict(r.q, reg, LoOf(r), HiOf(r))
+    IN  IF cv.v # "accept" \/ DcSegs(Parse(r.q, FALSE).v, r.doc, reg) THEN Acc
+        ELSE LET nl == Find(Parse(r.q, FALSE).v, r.doc, reg)
+             IN  IF r.locs # (IF nl = <<>> THEN <<>> ELSE <<nl[1].loc>>) THEN Rej("nodelist differs", <<"first item">>) ELSE Acc
+
 Verdict(r) ==
     CASE r.op = "compile" -> VCompile(r)
+      [] r.op = "findfirst" -> VFindFirst(r)
       [] r.op = "repeat" -> VRepeat(r)
       [] r.op = "api" -> VApi(r)
       [] r.op = "pcompile" -> VPCompile(r)
